@@ -465,6 +465,94 @@ OPTS_FOR = {
     "markdown": ["default", "batch1"], "dkvpx": ["default", "batch1", "lazy", "ifs-multi"], "yaml": ["default", "batch1"],
     "usv": ["default", "ragged"], "asv": ["default", "implicit"], "dcf": ["default", "batch1"], "recutils": ["default", "batch1"],
 }
+# ---- second wave of option sets: every reader-affecting flag of `mlr help flags`, run on the valid seeds, on wide
+# records with repeated keys / header names (9-40 fields; 1, 30 and 600 records, i.e. less and more than one batch) and on a
+# couple of mutants.  (A record arena that mis-counts its slabs only shows with --no-dedupe-field-names + a repeated key +
+# enough fields per batch: option x document-shape combinations matter, not either alone.)
+LINEFMTS = ["dkvp", "nidx", "xtab", "csv", "csvlite", "tsv", "pprint", "markdown"]
+EXTRA_OPTSETS = {
+    "no-dedupe": ["--no-dedupe-field-names"], "dedupe": ["--dedupe-field-names"],
+    "no-dedupe+batch1": ["--no-dedupe-field-names", "--records-per-batch", "1"], "no-dedupe+batch7": ["--no-dedupe-field-names", "--records-per-batch", "7"],
+    "dedupe+batch1": ["--dedupe-field-names", "--records-per-batch", "1"], "batch7": ["--records-per-batch", "7"], "batch-huge": ["--records-per-batch", "100000"],
+    "no-dedupe+ragged": ["--no-dedupe-field-names", "--allow-ragged-csv-input"], "no-dedupe+implicit": ["--no-dedupe-field-names", "--implicit-csv-header"],
+    "no-dedupe+hash": ["--no-dedupe-field-names", "--hash-records"], "hash-records": ["--hash-records"], "no-hash-records": ["--no-hash-records"],
+    "nr-progress": ["--nr-progress-mod", "1"], "skip-comments-with": ["--skip-comments-with", "%%"], "pass-comments-with": ["--pass-comments-with", "a"],
+    "gzin-on-plain": ["--gzin"], "zin-on-plain": ["--zin"], "bz2in-on-plain": ["--bz2in"], "zstdin-on-plain": ["--zstdin"],
+    "ifs-alias": ["--ifs", "semicolon"], "ifs-pipe": ["--ifs", "pipe"], "ips-alias": ["--ips", "colon"], "irs-alias": ["--irs", "crlf"], "irs-multi": ["--irs", ";;"],
+    "fs-ps-rs": ["--fs", ";", "--ps", ":", "--rs", "lf"], "repifs": ["--repifs"], "ifs-regex-ws": ["--ifs-regex", " +"], "ips-regex-2": ["--ips-regex", "[ :=]+"],
+    "ifs-empty": ["--ifs", ""], "ips-empty": ["--ips", ""],
+    "dash-N": ["-N"], "no-implicit": ["--no-implicit-csv-header"], "ragged+implicit+lazy": ["--allow-ragged-csv-input", "--implicit-csv-header", "--lazy-quotes"],
+    "csv-trim": ["--csv-trim-leading-space"], "quote-all-in": ["--quote-all"],
+    "fixed-left": ["--fixed", "left-align"], "fixed-multi": ["--fw", "x"], "fixed-right": ["--fixed", "right-align"], "fixed-widths": ["--fixed", "widths:2,3,40"],
+    "fixed-widths-bad": ["--fixed", "widths:0,-1,x"], "barred-in": ["--barred-input"], "right-in": ["--right"],
+    "dash-i": [], "tz": ["--tz", "Asia/Tokyo"], "ofmt": ["--ofmt", "%.3lf"], "dash-x": ["-x"], "infer-S+no-dedupe": ["-S", "--no-dedupe-field-names"],
+    "json-skip-arrays": ["--json-skip-arrays-on-input"], "json-map-arrays": ["--json-map-arrays-on-input"], "json-fatal-arrays": ["--json-fatal-arrays-on-input"],
+    "jvquoteall": ["--jvquoteall"], "jknquoteint": ["--jknquoteint"],
+}
+COMMON_EXTRA = ["no-dedupe", "dedupe", "no-dedupe+batch1", "no-dedupe+batch7", "dedupe+batch1", "batch7", "batch-huge", "no-dedupe+hash", "hash-records",
+                "no-hash-records", "nr-progress", "skip-comments-with", "pass-comments-with", "gzin-on-plain", "zin-on-plain", "bz2in-on-plain", "zstdin-on-plain",
+                "irs-alias", "irs-multi", "repifs", "dash-x", "infer-S+no-dedupe"]
+EXTRA_FOR = {
+    "dkvp": COMMON_EXTRA + ["ifs-alias", "ifs-pipe", "ips-alias", "fs-ps-rs", "ifs-regex-ws", "ips-regex-2", "ifs-empty", "ips-empty"],
+    "nidx": COMMON_EXTRA + ["ifs-alias", "ifs-pipe", "fs-ps-rs", "ifs-regex-ws", "ifs-empty"],
+    "xtab": COMMON_EXTRA + ["ips-alias", "ips-regex-2", "ips-empty", "ifs-empty", "fs-ps-rs"],
+    "csv": COMMON_EXTRA + ["no-dedupe+ragged", "no-dedupe+implicit", "ifs-alias", "ifs-pipe", "ifs-empty", "dash-N", "no-implicit", "ragged+implicit+lazy", "quote-all-in"],
+    "csvlite": COMMON_EXTRA + ["no-dedupe+ragged", "no-dedupe+implicit", "ifs-alias", "ifs-pipe", "ifs-empty", "dash-N", "no-implicit", "ragged+implicit+lazy", "csv-trim"],
+    "tsv": COMMON_EXTRA + ["no-dedupe+ragged", "no-dedupe+implicit", "ifs-alias", "ifs-empty", "dash-N", "no-implicit"],
+    "pprint": COMMON_EXTRA + ["no-dedupe+ragged", "fixed-left", "fixed-multi", "fixed-right", "fixed-widths", "fixed-widths-bad", "barred-in", "right-in", "ifs-alias", "ifs-empty"],
+    "markdown": COMMON_EXTRA + ["no-dedupe+ragged", "ifs-empty"],
+    "json": ["no-dedupe", "dedupe", "no-dedupe+batch1", "json-skip-arrays", "json-map-arrays", "json-fatal-arrays", "jvquoteall", "jknquoteint", "gzin-on-plain", "nr-progress"],
+    "jsonl": ["no-dedupe", "no-dedupe+batch1", "json-skip-arrays"], "dkvpx": ["no-dedupe", "no-dedupe+batch1", "ifs-empty", "ips-empty", "batch7"],
+    "yaml": ["no-dedupe", "batch7"], "usv": ["no-dedupe", "no-dedupe+batch1"], "asv": ["no-dedupe", "no-dedupe+batch1"],
+    "dcf": ["no-dedupe", "no-dedupe+batch1"], "recutils": ["no-dedupe", "no-dedupe+batch1"], "tsvlite": ["no-dedupe", "no-dedupe+ragged", "batch7", "no-dedupe+implicit"],
+}
+# reader flags of `mlr help flags` that no option set uses, with the reason (written into the evidence)
+FLAGS_NOT_COVERED = {"--prepipe": "runs a shell command (MLR_NO_SHELL is set for every run of this check)", "--prepipex": "same", "--prepipe-bz2": "same",
+                     "--prepipe-gunzip": "same", "--prepipe-zcat": "same", "--prepipe-zstdcat": "same", "--files": "file-name plumbing, not a reader option (C05)",
+                     "--mfrom": "same", "--from": "used implicitly by the @FILE@ cases of the special inputs", "-I": "in-place mode is C19", "-s": "argument file, not a reader option",
+                     "--load/--mload": "DSL", "--profile": ".mlrrc is disabled for every run", "--mmap/--no-mmap": "ignored by Miller 6"}
+
+
+def wide_docs(fmt, rng):
+    """wide records (9-40 fields) with repeated keys / header names: one record, 30 records, 600 records (> one default batch of 500)"""
+    docs = []
+    for nf, nrec in ((9, 1), (9, 30), (17, 1), (40, 3), (9, 600), (12, 30)):
+        keys = ["k%d" % i for i in range(nf)]
+        keys[1] = keys[0]                      # a repeat right at the start
+        if nf > 10:
+            keys[nf - 2] = keys[3]             # and one near the end
+        if nf == 12:
+            keys = ["a"] * nf                  # every key the same
+        rows = [[("v%d_%d" % (r, i)) for i in range(nf)] for r in range(nrec)]
+        e = lambda x: x.encode()
+        if fmt in ("dkvp", "dkvpx"):
+            d = b"".join(b",".join(e(k) + b"=" + e(v) for k, v in zip(keys, row)) + b"\n" for row in rows)
+        elif fmt == "nidx":
+            d = b"".join(b" ".join(e(v) for v in row) + b"\n" for row in rows)
+        elif fmt == "xtab":
+            d = b"\n".join(b"".join(e(k) + b" " + e(v) + b"\n" for k, v in zip(keys, row)) for row in rows)
+        elif fmt in ("csv", "csvlite", "tsv", "tsvlite", "usv", "asv"):
+            fs = {"tsv": b"\t", "tsvlite": b"\t", "usv": b"\xe2\x90\x9f", "asv": b"\x1f"}.get(fmt, b",")
+            rs = {"usv": b"\xe2\x90\x9e", "asv": b"\x1e"}.get(fmt, b"\n")
+            d = fs.join(e(k) for k in keys) + rs + b"".join(fs.join(e(v) for v in row) + rs for row in rows)
+        elif fmt == "pprint":
+            d = b" ".join(e(k) for k in keys) + b"\n" + b"".join(b" ".join(e(v) for v in row) + b"\n" for row in rows)
+        elif fmt == "markdown":
+            d = b"| " + b" | ".join(e(k) for k in keys) + b" |\n| " + b" | ".join(b"---" for k in keys) + b" |\n" + \
+                b"".join(b"| " + b" | ".join(e(v) for v in row) + b" |\n" for row in rows)
+        elif fmt in ("json", "jsonl"):
+            objs = [b"{" + b",".join(b'"' + e(k) + b'":"' + e(v) + b'"' for k, v in zip(keys, row)) + b"}" for row in rows]
+            d = (b"[" + b",\n".join(objs) + b"]") if fmt == "json" else b"\n".join(objs) + b"\n"
+        elif fmt == "yaml":
+            d = b"".join(b"- " + b"\n  ".join(e(k) + b": " + e(v) for k, v in zip(keys, row)) + b"\n" for row in rows)
+        elif fmt in ("dcf", "recutils"):
+            d = b"\n".join(b"".join(e(k) + b": " + e(v) + b"\n" for k, v in zip(keys, row)) for row in rows)
+        else:
+            continue
+        docs.append(("wide-repeated-keys-%dx%d" % (nf, nrec), d))
+    return docs
+
+
 NASTY = [b'"', b'""', b"'", b"\\", b"\x00", b"\xff", b"\xc3", b"\xef\xbb\xbf", b"\r", b"\r\n", b"\n\n", b",", b"\t", b" ", b"=", b"|", b"+", b"-", b"#",
          b"{", b"}", b"[", b"]", b":", b"null", b"\\u", b"\\ud800", b"1e999", b"-", b"- ", b"---\n", b"&a", b"*a", b"!!", b"%", b"\xe2\x90\x9f", b"\x1f", b"\x1e"]
 
@@ -538,8 +626,37 @@ def reader_cases(ctx):
                     if ls[li]:
                         docs.append(("longer-line", b"\n".join(ls[:li] + [ls[li] + FMT_SEP[fmt] + b"extra"] + ls[li + 1:])))
                         docs.append(("shorter-line", b"\n".join(ls[:li] + [ls[li].rsplit(FMT_SEP[fmt], 1)[0]] + ls[li + 1:])))
+            if oname in ("default", "batch1", "no-dedupe", "ragged"):
+                docs += wide_docs(fmt, rng)
             for kind, d in docs:
                 cases.append({"fmt": fmt, "opt": oname, "kind": kind, "args": FMT_FLAG[fmt] + OPTSETS[oname] + ["--ojson", "cat"], "stdin": d})
+    # second wave: every other reader flag x (valid seeds, wide records with repeated keys, a few mutants)
+    nmut = 2 if ctx.tier == "quick" else 30
+    for fmt, onames in EXTRA_FOR.items():
+        seeds = SEEDS.get(fmt) or SEEDS["tsv"]
+        wides = wide_docs(fmt, rng)
+        for oname in onames:
+            docs = [("valid", s) for s in seeds[:2]] + [("empty", b"")]
+            docs += wides if ("dedupe" in oname or "batch" in oname or "hash" in oname or ctx.tier == "thorough") else wides[:2]
+            if oname.endswith("-empty"):
+                docs = docs[:1] + wides[:1]        # an empty separator may hang: keep the cost of a confirmed hang small
+            for _ in range(0 if oname.endswith("-empty") else nmut):
+                kind, m = mutate(rng, rng.choice(seeds + [wides[0][1]]), FMT_SEP.get(fmt))
+                docs.append((kind, m))
+            flag = FMT_FLAG.get(fmt, ["--i" + fmt])
+            for kind, d in docs:
+                cases.append({"fmt": fmt, "opt": oname, "kind": kind, "args": flag + EXTRA_OPTSETS[oname] + ["--ojson", "cat"], "stdin": d})
+    # the input-format spellings themselves
+    for fmt, seeds in SEEDS.items():
+        name = {"markdown": "markdown", "recutils": "recutils"}.get(fmt, fmt)
+        cases.append({"fmt": fmt, "opt": "dash-i", "kind": "valid", "args": ["-i", name, "--ojson", "cat"], "stdin": seeds[0]})
+        cases.append({"fmt": fmt, "opt": "dash-io", "kind": "valid", "args": ["--io", name, "cat"], "stdin": seeds[0]})
+        cases.append({"fmt": fmt, "opt": "two-way", "kind": "valid", "args": ["--" + {"markdown": "md"}.get(fmt, fmt), "cat"], "stdin": seeds[0]})
+    # the record generator pseudo-reader
+    for extra in ([], ["--gen-start", "1", "--gen-stop", "10", "--gen-step", "3"], ["--gen-start", "10", "--gen-stop", "1", "--gen-step", "-4"],
+                  ["--gen-field-name", "", "--gen-stop", "3"], ["--gen-start", "9223372036854775806", "--gen-stop", "9223372036854775807"],
+                  ["--gen-start", "x"], ["--gen-stop", "1.5"], ["--gen-start", "5", "--gen-stop", "1"]):
+        cases.append({"fmt": "gen", "opt": "igen", "kind": "valid", "args": ["--igen"] + extra + ["--ojson", "cat"], "stdin": b""})
     return cases
 
 
@@ -549,7 +666,8 @@ def reader_part(ctx, exe):
     for i, c in enumerate(cases):
         c["id"] = i
         # one worker per format; the option sets that switch process-global state (type inference) get their own
-        groups.setdefault((c["fmt"], c["opt"] if c["opt"] in ("S", "A", "O") else "plain"), []).append(c)
+        glob = c["opt"] if c["opt"] in ("S", "A", "O", "infer-S+no-dedupe") else "plain"
+        groups.setdefault((c["fmt"], glob), []).append(c)
         ctx.dist("reader:" + c["fmt"]); ctx.dist("reader-mutation:" + c["kind"].split("+")[0])
     with ctx.timed("reader_inproc"):
         res = inproc_many(exe, list(groups.values()))
@@ -562,14 +680,17 @@ def reader_part(ctx, exe):
         ctx.count(("reader", c["fmt"], c["opt"], c["stdin"]))
         if cl not in ("ok", "mlr_error"):
             suspects.append(c)
-    ctx.cov["reader_mutation"] = {"cases": len(cases), "in_process_classes": tally, "formats": sorted(SEEDS), "option_sets": {k: v for k, v in OPTSETS.items()}}
+    used = sorted({a for c in cases for a in c["args"] if a.startswith("-") and a not in ("--ojson",) and not re.fullmatch(r"-?\d+(\.\d+)?", a)})
+    ctx.cov["reader_mutation"] = {"cases": len(cases), "in_process_classes": tally, "formats": sorted(set(c["fmt"] for c in cases)),
+                                  "option_sets": dict(OPTSETS, **EXTRA_OPTSETS), "reader_flags_covered": used, "reader_flags_not_covered": FLAGS_NOT_COVERED,
+                                  "option_set_x_format_pairs": len({(c["fmt"], c["opt"]) for c in cases})}
     # confirm suspects with the real binary; tie a random sample of the rest to the binary's classification
     sample = [c for c in cases if c["class"] in ("ok", "mlr_error")]
     ctx.rng.shuffle(sample)
     sample = sample[:8 if ctx.tier == "quick" else 400]
 
     def cli(c):
-        st, out, err = run_cli(ctx, c["args"], c["stdin"], timeout=25, max_out=20_000_000)
+        st, out, err = run_cli(ctx, c["args"], c["stdin"], timeout=8 if c.get("class") == "hang" else 25, max_out=20_000_000)
         return c, c18_classify(st, err), st, err
     seen_cls = set()
     with ctx.timed("reader_cli"):
@@ -592,7 +713,7 @@ def reader_part(ctx, exe):
         if cls in seen_cls:
             continue
         seen_cls.add(cls)
-        small = shrink_reader_witness(ctx, c["args"], c["stdin"], cls, c["fmt"])
+        small = shrink_reader_witness(ctx, c["args"], c["stdin"], cls, c["fmt"], c.get("opt"))
         ctx.violation({"class": cls, "part": "reader", "input": "mlr %s  < stdin" % " ".join(c["args"]), "args": c["args"], "stdin_hex": small.hex(),
                        "stdin_hex_before_shrinking": c["stdin"].hex() if small != c["stdin"] else None,
                        "mutation": c["kind"], "observed": "%s exit=%s %s" % (k, st, err.decode("utf-8", "replace")[:500]),
@@ -623,12 +744,14 @@ def shrink_seq(items, still_fails, budget=40):
     return items
 
 
-def shrink_reader_witness(ctx, args, data, cls, fmt):
+def shrink_reader_witness(ctx, args, data, cls, fmt, opt=None):
+    hang = cls.startswith("reader-hang")
+
     def fails(bs):
-        st, out, err = run_cli(ctx, args, bytes(bs), timeout=15)
+        st, out, err = run_cli(ctx, args, bytes(bs), timeout=5 if hang else 15)
         k = c18_classify(st, err)
-        return k not in ("ok", "mlr_error") and reader_class({"fmt": fmt}, k, err) == cls
-    return bytes(shrink_seq(list(data), fails))
+        return k not in ("ok", "mlr_error") and reader_class({"fmt": fmt, "opt": opt}, k, err) == cls
+    return bytes(shrink_seq(list(data), fails, budget=3 if hang else 40))
 
 
 def shrink_dsl_witness(ctx, prog, rec, cls):
@@ -645,6 +768,8 @@ def shrink_dsl_witness(ctx, prog, rec, cls):
 
 
 def reader_class(c, k, err):
+    if k == "hang" and c.get("opt"):
+        return "reader-hang-%s-%s" % (c["fmt"], c["opt"])
     m = re.search(rb"pkg/([\w/-]+)/([\w.-]+\.go):(\d+)", err)
     where = (m.group(2).decode().replace(".go", "") if m else "unknown")
     return "reader-%s-%s-%s" % (k, c["fmt"], where)
